@@ -26,7 +26,7 @@ from ..vloop import virtual_env
 PID = 'C19'
 LEVEL = 'exploration'
 EXHAUSTIVE = True
-RULE = ('complete enumeration of upstream in {absent, unbound, unbound chain of two, asynchronous, blocking, bound to '
+RULE = ('complete enumeration of upstream in {absent, unbound, unbound chain of two, unbound with an existing sibling branch, asynchronous, blocking, bound to '
         'another loop, join of bound+unbound in both orders} x node type in {plain without kwargs (map), plain with kwargs (pluck, '
         'sliding_window, union, zip, combine_latest, sink), loop-needing (partition, timed_window, timed_window_unique, '
         'delay, rate_limit, buffer, latest, map_async), 12 source classes} x asynchronous in {None, True, False} x loop '
@@ -43,7 +43,7 @@ NEEDS_KW = ['partition', 'timed_window', 'timed_window_unique', 'delay', 'rate_l
 NEEDS_NOKW = ['map_async']
 SOURCES = ['from_iterable', 'from_periodic', 'from_textfile', 'filenames', 'from_q', 'from_tcp', 'from_http_server',
            'from_process', 'from_kafka', 'FromKafkaBatched', 'from_websocket', 'from_mqtt']
-UPS = ['absent', 'unbound', 'chain', 'async', 'blocking', 'other', 'join', 'join_rev']
+UPS = ['absent', 'unbound', 'chain', 'sibling', 'async', 'blocking', 'other', 'join', 'join_rev']
 
 
 def plan(tier):
@@ -93,6 +93,12 @@ def build(cfg, cur, other, bg_getter):
     elif u == 'chain':
         s0 = Stream()
         ups = [s0, s0.map(lambda x: x)]
+    elif u == 'sibling':
+        # a branch of the same pipeline that exists before the pipeline learns its loop
+        s0 = Stream()
+        sib = s0.map(lambda x: x)
+        sib2 = sib.map(lambda x: x)
+        ups = [sib2, sib, s0]
     elif u == 'async':
         ups = [Stream(asynchronous=True)]
     elif u == 'blocking':
@@ -173,9 +179,9 @@ def expectation(cfg, cur, other):
     """('raise',) or ('ok', loop_kind, asynchronous_or_None_meaning_unspecified)"""
     u, t, a, lp = cfg
     needs = t in NEEDS_KW or t in NEEDS_NOKW or t in SOURCES
-    u_loop = {'absent': None, 'unbound': None, 'chain': None, 'async': 'current', 'blocking': 'bg', 'other': 'other',
+    u_loop = {'absent': None, 'unbound': None, 'chain': None, 'sibling': None, 'async': 'current', 'blocking': 'bg', 'other': 'other',
               'join': 'current', 'join_rev': 'current'}[u]
-    u_async = {'absent': None, 'unbound': None, 'chain': None, 'async': True, 'blocking': False, 'other': None,
+    u_async = {'absent': None, 'unbound': None, 'chain': None, 'sibling': None, 'async': True, 'blocking': False, 'other': None,
                'join': True, 'join_rev': True}[u]
     if a is not None and u_async is not None and a != u_async:
         return ('raise',)
@@ -333,6 +339,8 @@ async def main():
         kafka_fake.Consumer.commit = commit
         s = Stream.from_kafka_batched('t', {'bootstrap.servers': 'x', 'group.id': 'g', 'auto.offset.reset': 'earliest'},
                                       poll_interval=0.02, max_batch_size=2, asynchronous=True)
+    elif kind == 'blocking_then_async':
+        s = PRE['src']
     elif kind == 'timed_window':
         s = Stream(asynchronous=True)
         s = s.timed_window(0.01)
@@ -353,8 +361,24 @@ async def main():
     out['callbacks'] = len(seen)
     out['foreign'] = len([t for t in seen if t != threading.get_ident()])
     out['asynchronous'] = s.asynchronous
+PRE = {}
 try:
-    asyncio.run(main())
+    if kind == 'blocking_then_async':
+        # "build, then run the loop": a blocking pipeline is built first (it may start the background loop), then an
+        # asynchronous one is declared in the same thread before any loop runs
+        from tornado.ioloop import IOLoop
+        lp = asyncio.new_event_loop()
+        asyncio.set_event_loop(lp)
+        mine = IOLoop.current()
+        blocking = Stream().timed_window(1000)
+        PRE['src'] = Stream.from_iterable([1, 2, 3], asynchronous=True)
+        out['loop_is_callers'] = PRE['src'].loop is mine
+        out['current_unchanged'] = IOLoop.current() is mine
+        lp.run_until_complete(main())
+        out['threads'] -= 1          # the blocking pipeline legitimately owns the background thread
+        out['io_loops'] -= 1
+    else:
+        asyncio.run(main())
 except Exception as ex:
     out['error'] = repr(ex)
 print(json.dumps(out))
@@ -375,7 +399,7 @@ def pristine(kind):
 
 
 PRISTINE_KINDS = ['from_iterable', 'from_periodic', 'from_textfile', 'from_q', 'timed_window', 'timed_window_explicit',
-                  'buffer_explicit', 'from_kafka_batched']
+                  'buffer_explicit', 'from_kafka_batched', 'blocking_then_async']
 
 
 def run_shard(seed, tier, shard, nshards):
@@ -413,7 +437,11 @@ def run_shard(seed, tier, shard, nshards):
         if 'error' in r:
             out['violations'].append({'key': 'C19:pristine-error@%s' % kind, 'what': r['error'], 'case': case})
             continue
-        if r['threads'] != 1 or r['io_loops'] != 0:
+        if kind == 'blocking_then_async' and not (r.get('loop_is_callers') and r.get('current_unchanged')):
+            out['violations'].append({'key': 'C19:async-declared-after-blocking-pipeline-lands-on-foreign-loop',
+                                      'what': 'a blocking pipeline was built first, then a source was declared asynchronous in the same '
+                                              'thread: %s' % r, 'case': case})
+        elif r['threads'] != 1 or r['io_loops'] != 0:
             out['violations'].append({'key': 'C19:async-started-thread@%s' % ('source' if kind.startswith('from_') else 'loop-needing-node'),
                                       'what': 'pristine process, %s declared asynchronous: %d threads alive, %d background loops, '
                                               'node.asynchronous=%r' % (kind, r['threads'], r['io_loops'], r['asynchronous']), 'case': case})
